@@ -375,8 +375,15 @@ def register(T, repo):
                           'buf': cm.BufS(G['src']),
                           'tok': tm.DocTok(G['src'])},
         result=lambda A: StrS(name='envname'),
+        # ghost history: \\begin and \\end read the environment name through
+        # this one function (expanded text), so both ends see the same name
+        effects=lambda ex, st, A: st.ghost.__setitem__(
+            '$envname_calls', st.ghost.get('$envname_calls', 0) + 1),
         post_objs=[('buffer', lambda A: A['buf'], post_buf),
                    ('parser', P_self, post_parser)]))
+
+    def name_read_once(A, r):
+        return bool(A['$st'].ghost.get('$envname_calls', 0) == 1)
 
     c = T.add(FContract(
         PAR + 'parse_newline_option', ghosts=parser_ghost,
@@ -458,7 +465,9 @@ def register(T, repo):
                           'buf': cm.BufS(G['src']),
                           'start': IntS(name='start'),
                           'end': StrS(name='end')},
-        requires=[('start-in-range', in_range)],
+        requires=[('start-in-range', in_range),
+                  ('end-is-a-closing-bracket', lambda A: Or(
+                      sym.seq_eq(A['end'], '}'), sym.seq_eq(A['end'], ']')))],
         result=lambda A: ObjS('yalafi.scanner.Buffer', {
             'tokens': tm.DocList(A['src'], lambda n: zint(n) >= 1)}),
         post_objs=[('buffer', lambda A: A['buf'], post_buf)]))
@@ -468,6 +477,40 @@ def register(T, repo):
     lp.shapes['buf.tokens'] = lambda E: tm.DocList(E['src'])
     lp.invs.append(('tok-is-cur', lambda E: zbool(E['tok'].isnone) == (
         zint(E['buf'].fields['tokens'].length()) == 0)))
+
+    # C02 / C03: verbatim material inside an argument is never markup -- a
+    # \\verb token neither changes the brace level nor closes the argument,
+    # it is collected like any other text
+    def ab_verbatim_opaque(E0, E1):
+        ex = E0['$ex']
+        tok = E0['tok']
+        o = tok.obj if isinstance(tok, Opt) else tok
+        if not isinstance(o, Obj):
+            return True
+        isverb = And(Not(tok.isnone) if isinstance(tok, Opt) else True,
+                     tm.cls_is(ex, o, D + 'VerbatimToken'))
+        out1 = E1['out']
+        kept = False
+        if isinstance(out1, TokList) and out1.segs and \
+                isinstance(out1.segs[-1], Single):
+            last = out1.segs[-1].obj
+            last = last.obj if isinstance(last, Opt) else last
+            kept = bool(isinstance(last, Obj) and last.oid == o.oid)
+        return Implies(isverb, And(zint(E1['lev']) == zint(E0['lev']), kept))
+    lp.body_post.append(('verbatim-token-is-opaque', ab_verbatim_opaque))
+
+    def ab_closed_by_markup(A, r):
+        L = A.get('$locals') or {}
+        tok = L.get('tok')
+        if 'out' not in L or tok is None:
+            return True
+        o = tok.obj if isinstance(tok, Opt) else tok
+        if not isinstance(o, Obj):
+            return True
+        isn = tok.isnone if isinstance(tok, Opt) else False
+        return Or(isn, Not(tm.cls_is(A['$ex'], o, D + 'VerbatimToken')))
+    c.proof_ensures.append(('closing-token-is-not-verbatim',
+                            ab_closed_by_markup))
 
     # -------------------------------------------------------- expand_macro
     def from_maths(A):
@@ -644,6 +687,61 @@ def register(T, repo):
                    ('parser', P_self, post_parser)]))
 
     # --------------------------------------------------- begin_environment
+    # same ghost-history clauses as for expand_macro; 'declared' is the
+    # answer of the last membership test on the environment table for the
+    # name that was read (the table may change while the name is read)
+    def be_test(A):
+        st = A['$st']
+        name = A['$locals'].get('name')
+        if not sym.is_str(name):
+            return None
+        nm = lift_str(name)
+        key = (nm.arr.sexpr(), str(nm.ln))
+        for kind, a, n, b, d in reversed(st.ghost.get('$haslog', ())):
+            if kind == 'env' and (a, n) == key:
+                return b, d, nm
+        return None
+
+    def be_calls(A):
+        return A['$st'].ghost.get('$expansions', ())[A['old']['nexp']:]
+
+    def be_declared_expanded(A, r):
+        t = be_test(A)
+        if t is None:
+            return False
+        b, d, nm = t
+        calls = be_calls(A)
+        env_oid = d.default_mk(A['$ex'], A['$st'], nm).oid
+        return And(Implies(b, bool(len(calls) == 1 and
+                                   calls[0] == env_oid)),
+                   Implies(Not(b), len(calls) == 0))
+
+    def be_record(A, r):
+        t = be_test(A)
+        if t is None:
+            return False
+        b, d, nm = t
+        st = A['$st']
+        u = A['self'].fields['unknowns']
+        # the list object at return is the one the test and the append
+        # worked on only on the undeclared path (no call in between)
+        if len(be_calls(A)) > 0:
+            return True
+        wr = len(st.writes_of(u))
+        memb = None
+        for (lid, ver, a), v in st.ghost.get('$memq', {}).items():
+            if lid == u.lid and a == nm.arr.sexpr():
+                memb = v
+        done = False
+        if wr >= 1 and u.segs and isinstance(u.segs[-1], Single) and \
+                sym.is_str(u.segs[-1].obj):
+            done = sym.seq_eq(lift_str(u.segs[-1].obj), nm)
+        return And(
+            Implies(Or(b, A['math']), wr == 0),
+            Implies(And(Not(b), Not(A['math'])),
+                    Or(And(wr == 1, done),
+                       And(wr == 0, memb if memb is not None else False))))
+
     c = T.add(FContract(
         PAR + 'begin_environment', ghosts=parser_ghost,
         params=lambda G: {'self': ParserS(G['src']),
@@ -652,6 +750,12 @@ def register(T, repo):
                           'math': BoolS('math')},
         requires=[('maths-calls-pass-math-true', from_maths)],
         result=lambda A: tm.DocList(A['src']),
+        olds=lambda A: {'nexp': len(A['$st'].ghost.get('$expansions', ()))},
+        proof_ensures=[
+            ('environment-name-read-as-at-end', name_read_once),
+            ('declared-environment-is-expanded', be_declared_expanded),
+            ('unknowns:environment-recorded-iff-undeclared-text-use',
+             be_record)],
         post_objs=[('buffer', lambda A: A['buf'], post_buf),
                    ('parser', P_self, post_parser)]))
     c.loop_ok = True
@@ -666,6 +770,8 @@ def register(T, repo):
                                 BoolS('stop')),
         ensures=[('stop-needs-env_stop', lambda A, r: Implies(
             r[1], Not(es_none(A))))],
+        proof_ensures=[('environment-name-read-as-at-begin',
+                        name_read_once)],
         post_objs=[('buffer', lambda A: A['buf'], post_buf),
                    ('parser', P_self, post_parser)]))
 
@@ -692,7 +798,14 @@ def register(T, repo):
                    ('parser', P_self, post_parser)]))
     lp = c.loop(0)
     loop_parser_shapes(lp)
-    lp.shapes['args'] = lambda E: tm.DocList(E['src'])
+    # C09 (\\def, "undelimited parameters"): white space and comments
+    # between the macro name, the parameters and the body are not part of
+    # the parameter text (TeX ignores space after a control word and after
+    # #k) -- every token kept as parameter text is of a non-space class
+    lp.shapes['args'] = lambda E: ListS(tm.TokS(lambda ex, t: And(
+        tm.ok(ex, t, E['src']), Not(tm.cls_is(
+            ex, t, D + 'SpaceToken', D + 'CommentToken', D + 'ActionToken',
+            D + 'VoidToken'))), name='dp'), None, 'def_params')
     lp.shapes['tok'] = lambda E: tm.OptTokS(tm.DocTok(E['src']))
     lp = c.loop(1)
     lp.shapes['arg_pos_map'] = lambda E: IListS(
